@@ -297,6 +297,26 @@ def _clusters(src):
     add("hll:_query", ["hll_zero_cmp", "hll_raw_mult"], qlit)
     add("hll:merge", ["guard_hll"], lambda: {"guard_hll": _guard_fields(_find_func(P("hyperloglog.py"), "merge", "HyperLogLog"))})
 
+    # ---------------- the row hash: `<col> = fasthash64(key, row) % width` inside `for row in range(depth)` (C14)
+    def rowhash(fname, func, const):
+        def f():
+            fn = _find_func(P(fname), func)
+            found = []
+            for n in ast.walk(fn):
+                if isinstance(n, ast.For) and isinstance(n.target, ast.Name):
+                    for st in n.body:
+                        if isinstance(st, ast.Assign) and any(isinstance(c, ast.Call) and getattr(c.func, "id", "") == "fasthash64"
+                                                             for c in ast.walk(st.value)):
+                            found.append(f"for {n.target.id} in {ast.unparse(n.iter)}: {ast.unparse(st.value)}")
+            if len(found) != 1:
+                raise TranslatorError(f"{func}: expected exactly one column assignment using fasthash64 in a row loop, found {found}")
+            return {const: found[0]}
+        return f
+    for fname, func, const in (("countmin.py", "_query_linear", "rowhash_query_linear"), ("countmin.py", "_query_log16", "rowhash_query_log16"),
+                               ("countmin.py", "_query_log8", "rowhash_query_log8"), ("heavyhitters.py", "_add", "rowhash_hh_add"),
+                               ("heavyhitters.py", "_max_count", "rowhash_hh_max_count")):
+        add(f"rowhash:{func}", [const], rowhash(fname, func, const))
+
     # ---------------- heavyhitters.py
     add("hh:uint_maxval", ["hh_cap"], cap_hh(P))
 
@@ -335,7 +355,8 @@ def extract_consts(repo):
         except Exception as e:
             errors["consts:" + tag] = f"{type(e).__name__}: {e}"
             for k in names:
-                C[k] = [] if k.startswith("guard_") else (-1.0 if k in FLOAT_NAMES else -1)
+                C[k] = [] if k.startswith("guard_") else ("TRANSLATION FAILED" if k.startswith("rowhash_") else
+                                                          (-1.0 if k in FLOAT_NAMES else -1))
     return C, errors
 
 
@@ -362,6 +383,8 @@ def emit_consts(C):
         if isinstance(v, list):
             items = "; ".join('"%s"' % s for s in v)
             L.append(f"Definition {k} : list string := [{items}].")
+        elif isinstance(v, str):
+            L.append(f'Definition {k} : string := "{v}".')
         elif isinstance(v, float):
             L.append(f"Definition {k} : float := {_float_lit(v)}.")
         else:
